@@ -323,7 +323,7 @@ impl Check for C13 {
     }
     fn strategy(&self, _tier: Tier) -> BoxedStrategy<Case> {
         (
-            gt::choices(170),
+            gt::choices(180),
             gt::choices(80),
             prop_oneof![2 => Just(0u8), 1 => 1u8..12],
             gt::choices(40),
